@@ -142,7 +142,7 @@ example : Universe exW := by
   · rintro t (rfl | rfl | rfl | rfl) x hx <;> simp [exA, exB, exCb] at hx <;> subst hx <;> decide
   · rintro a b (rfl | rfl | rfl | rfl) (rfl | rfl | rfl | rfl) h <;> first | rfl | (exact absurd h (by decide))
 
-def exPol : Policy := ⟨false, false, 100, 100000, 1000, true, true⟩
+def exPol : Policy := ⟨false, false, 100, 100000, 1000, true, true, 65, 50000⟩
 
 /-- a history satisfying every hypothesis used below (`RunOkM`, hence `RunOk`) -/
 example : RunOkM exW exPol (State.init 1 0)
@@ -295,9 +295,6 @@ theorem virtualSize_bounds (s t : Nat) (h : s ≤ t) : s ≤ virtualSize s t ∧
 
 theorem pin_maxRBFSequence : Generated.C10.maxRBFSequence = (maxRBFSequence : Int) := by decide
 theorem pin_maxReplacementEvictions : Generated.C10.maxReplacementEvictions = (maxReplacementEvictions : Int) := by decide
-theorem pin_minStandardTxNonWitnessSize :
-    Generated.C10.minStandardTxNonWitnessSize = (minStandardTxNonWitnessSize : Int) := by decide
-theorem pin_defaultBlockPrioritySize : Generated.C10.defaultBlockPrioritySize = (defaultBlockPrioritySize : Int) := by decide
 theorem pin_lockTimeThreshold : Generated.C10.lockTimeThreshold = (lockTimeThreshold : Int) := by decide
 theorem pin_maxSatoshi : Generated.C10.maxSatoshi = (maxSatoshi : Int) := by decide
 theorem pin_maxSeq : Generated.C10.maxTxInSequenceNum = (maxSeq : Int) := by decide
